@@ -22,11 +22,16 @@ fn run_inside_shuttle(plan: &Plan, out: &mut RunOut) {
     cfg.stack_size = 2 << 20;
     cfg.failure_persistence = shuttle::FailurePersistence::None;
     cfg.silence_warnings = true;
+    // single simulated thread: no livelock to bound, and long histories take millions of steps
+    cfg.max_steps = shuttle::MaxSteps::None;
     let res = std::panic::catch_unwind(std::panic::AssertUnwindSafe(|| {
         shuttle::Runner::new(RandomScheduler::new_from_seed(1, 1), cfg).run(move || {
-            let mut g = inner2.lock().unwrap();
-            if let Some(o) = g.as_mut() {
-                C04.exec_plan(&p, o);
+            // never hold the std mutex across the execution: a panicking task's continuation is
+            // leaked by shuttle, guard included
+            let taken = inner2.lock().unwrap().take();
+            if let Some(mut o) = taken {
+                C04.exec_plan(&p, &mut o);
+                *inner2.lock().unwrap() = Some(o);
             }
         });
     }));
